@@ -565,7 +565,9 @@ class DEVSSimulator(Simulator[TIME], Generic[TIME]):
                  **kwargs) -> SimEventInterface:
         """schedule a methodCall at a relative duration. The execution 
         time is thus simulator.simulator_time + delay."""
-        if delay < 0:
+        # compare with a zero of the simulator's time type: a Duration
+        # delay cannot be compared with the int 0
+        if delay < self._simulator_time - self._simulator_time:
             raise DSOLError("cannot schedule event in the past")
         return self.schedule_event(SimEvent(self._simulator_time + delay,
                  target, method, priority, **kwargs))
